@@ -273,7 +273,7 @@ def random_event(rng):
          "st": rng.choice([None, None, "inprogress", "success", "fail", "exists", "skip", "xfail",
                            "uxsuccess", "unknown"])}
     if rng.random() < 0.5:
-        e["rc"] = rng.choice([None, "0", "0/1"])
+        e["rc"] = rng.choice([None, "0", "0/1", ""])     # "" is a route code of its own, not "no route code"
     if rng.random() < 0.45:
         e["tags"] = rng.choice([None, [], ["x"], ["x", "y"], ["z"]])
     if rng.random() < 0.45:
